@@ -276,7 +276,10 @@ AsConj(e, d) == IF Has(e, "as") THEN (IF e.as \in ContentConjs THEN e.as ELSE "T
 OutcomeFails(e) == IF e.outcome = "ok" \/ aux.fault THEN {} ELSE {"C01.outcome"}
 
 \* sync events: each of the three files got an OS sync of the right flavour (or is already covered)
-SyncIoOK(e, op) == \A f \in {"val", "key", "htx"} : \E i \in 1..Len(e.io) : e.io[i] = <<f, op>>
+\* evidence of the OS syncs issued during the call: the syscall log (strace, field "sys") when the trace
+\* has it, else the io-trace hook (field "io")
+SyncLog(e) == IF Has(e, "sys") THEN e.sys ELSE e.io
+SyncIoOK(e, op) == \A f \in {"val", "key", "htx"} : \E i \in 1..Len(SyncLog(e)) : SyncLog(e)[i] = <<f, op>>
 MapsOfDir(d) == {m \in DOMAIN meta : meta[m].dir = d /\ meta[m].open}
 
 \* The result of processing event e: new values of the variables plus the failed conjuncts
@@ -406,7 +409,7 @@ Proc(e) ==
             LET ok == e.outcome = "ok"
                 ms == MapsOfDir(e.dir)
                 op == IF e.ev = "db_sync_all" THEN "sync_all" ELSE "sync_data"
-                cnt(f) == Cardinality({i \in 1..Len(e.io) : e.io[i] = <<f, op>>})
+                cnt(f) == Cardinality({i \in 1..Len(SyncLog(e)) : SyncLog(e)[i] = <<f, op>>})
                 need == Cardinality({x \in ms : ~Get0(aux.synced, x, FALSE)})
                 syn == \A f \in {"val", "key", "htx"} : cnt(f) >= need
                 all == \A f \in {"val", "key", "htx"} : cnt(f) >= Cardinality(ms)
